@@ -270,6 +270,8 @@ class Run:
             if not fails and replay_fn and f.witness:
                 try:
                     w = json.load(open(os.path.join(ROOT, f.witness), encoding="utf-8"))
+                    if isinstance(w, dict) and "case" in w and "symptom" in w:
+                        w = w["case"]       # a replay file: the case is wrapped
                     vs = replay_fn(w)
                     fails = any(f.matches(dict(v, property=self.prop)) for v in vs)
                 except Exception as e:
@@ -282,6 +284,8 @@ class Run:
             for wpath in load_fixed(self.prop):
                 try:
                     wcase = json.load(open(os.path.join(ROOT, wpath), encoding="utf-8"))
+                    if isinstance(wcase, dict) and "case" in wcase and "symptom" in wcase:
+                        wcase = wcase["case"]
                     for v in replay_fn(wcase):
                         v = dict(v, property=self.prop)
                         v["detail"] = "REGRESSION of a repaired defect (%s): %s" % (wpath, v.get("detail", ""))
